@@ -98,6 +98,46 @@ func VerifC29Shapes() {
 	}
 }
 
+// VerifC29Labels: the label of a shape at every outside, border and inside
+// position, alone and together with the 3D offset that moves it.
+func VerifC29Labels() {
+	c := nd.Param("COORD", 2000)
+	s := Shape{Type: ShapeRectangle}
+	if nd.Bool("hex") {
+		s.Type = ShapeHexagon
+	}
+	s.Pos = Point{nd.IntRange("x", -c, c), nd.IntRange("y", -c, c)}
+	s.Width = nd.IntRange("w", 0, c)
+	s.Height = nd.IntRange("h", 0, c)
+	s.StrokeWidth = nd.IntRange("sw", 0, 15)
+	s.ThreeDee = nd.Bool("3d")
+	s.Label = "L"
+	s.LabelWidth = nd.IntRange("lw", 0, 500)
+	s.LabelHeight = nd.IntRange("lh", 0, 500)
+	lp := c29Positions[nd.Choose("lp", 0, len(c29Positions)-1)]
+	s.LabelPosition = lp.String()
+	d := Diagram{Shapes: []Shape{s}}
+	tl, br := d.BoundingBox()
+	nd.Cover("box")
+	x, y, w, h := float64(s.Pos.X), float64(s.Pos.Y), float64(s.Width), float64(s.Height)
+	p := lp.GetPointOnBox(geo.NewBox(geo.NewPoint(x, y), w, h), label.PADDING, float64(s.LabelWidth), float64(s.LabelHeight))
+	lx, ly := p.X, p.Y
+	if s.ThreeDee {
+		off := float64(THREE_DEE_OFFSET)
+		if s.Type == ShapeHexagon {
+			off /= 2
+		}
+		switch lp {
+		case label.OutsideRightTop, label.OutsideRightMiddle, label.OutsideRightBottom:
+			lx += off
+		case label.OutsideTopLeft, label.OutsideTopCenter, label.OutsideTopRight:
+			ly -= off
+		}
+	}
+	nd.Cover("label")
+	c29Inside(tl.X, tl.Y, br.X, br.Y, lx, ly, lx+float64(s.LabelWidth), ly+float64(s.LabelHeight), "a label")
+}
+
 // VerifC29Route: every route point of a connection (with its stroke) lies
 // inside the bounding box.
 func VerifC29Route() {
